@@ -473,7 +473,8 @@ class Runner:
             if cid == IMPLICIT:
                 ok = o2[0] == "raised" and o2[1] == disc
                 detail = o2[2] if ok else ""
-            elif o2[0] == "ok":
+            elif o2[0] in ("ok", "raised"):
+                # (clauses recorded before an exception escaped the harness still count)
                 for ccid, cf, cdisc in self._concrete_clause_values(c2):
                     if ccid == cid and cdisc == disc and cf is False:
                         ok = True
